@@ -137,7 +137,8 @@ CLAIMED = {
          '_group / regroup / distribute the partition, exact group count, ordering, equal '
          'flow within a group, conservation against a harness-recomputed total, and the '
          'pressure-drop limit are checked. The optimisation is repeated under permuted '
-         'directory listings, SimPool and wall-clock jumps and must distribute the same flows.'),
+         'directory listings, SimPool and wall-clock jumps and must distribute the same flows; '
+         'after optimize() the live controller distributes once more under a tightened limit.'),
    design_ref='DESIGN.md section 3, C20',
    note=('An action ending in an exception or error exit counts as stopped with an error; '
          'a reach probe requires completed optimisations. recycle_results = False.'),
